@@ -4,7 +4,6 @@ import ThriftVerif.Props.C05
 #print axioms Props.C05.resolve_category
 #print axioms Props.C05.used_iff_referenced
 #print axioms Props.C05.deref_total
-#print axioms Props.C05.resolve_const_binding_partial
-#print axioms Props.C05.kwlist_has_no_candidate
+#print axioms Props.C05.resolve_const_binding
 #print axioms Props.C05.order_independent
 #print axioms Props.C05.getEnum_fuel_unreachable
